@@ -5,7 +5,8 @@ from .. import e2e, progen
 from ..e2e import HEADER, CASE_TYPE, CHECK, MODEL_VIEW, SHARD, CASE_TIMEOUT, observe, coq_term, nontrivial_key, tags  # noqa: F401
 
 ID = "C12"
-THEOREMS = ["C12_config", "C12_sfc_is_ips", "C12_sfc_defined", "C12_copier", "C12_symfile"]
+THEOREMS = ["C12_config", "C12_sfc_is_ips", "C12_sfc_defined", "C12_copier", "C12_symfile",
+            "C12_oracle_sound", "C12_file_matches", "C12_model_satisfies_oracles"]
 RULE = ("the option lattice format {ips, sfc} x mapping {default, low, low2, high} x copier header {off, on} x -D defines "
         "{none, one, several} x generated programs valid under the mapping (offsets kept below 64 KiB so that flat images "
         "stay small): Program.assemble / assemble_as_patch on files for every point, the x816 command line in a subprocess "
@@ -13,7 +14,9 @@ RULE = ("the option lattice format {ips, sfc} x mapping {default, low, low2, hig
         "image writer, with the in-memory blocks; non-trivial: the program assembles and writes bytes")
 PROVED_NOTE = ("proved: the SFC image equals the IPS patch applied to an empty image for every block sequence; the copier "
                "header shifts offsets by exactly 0x200; a front end is the in-memory assembly followed by the writer; symbol "
-               "file fields. Correspondence-only: option parsing (argparse), -D handling, file I/O, exit status.")
+               "file fields; the model's own output satisfies the run-time oracle c12_ok for every source (the independent decoder of the "
+               "oracle reads back exactly the in-memory blocks), so the oracle cannot false-alarm on observations that agree with the "
+               "model. Correspondence-only: option parsing (argparse), -D handling, file I/O, exit status.")
 MANIFEST = {
     "text": ("Coq theorems on the writer models (IPS = patch of exactly the blocks, SFC = that patch applied to an empty image, "
              "copier = +0x200) and on the front-end model; tied to cli.py/program.py/writers.py by an exhaustive run of the "
